@@ -86,9 +86,8 @@ def r1_agreement(rep, src, M):
         raise AnalysisError('not all value forms are produced by the dump template')
 
 
-def check_lines(rep, M, site, label, Tm, Te, groups, universal, has_first, where):
+def check_lines(rep, M, site, label, Tm, Te, groups, universal, has_first, where, rule='C02.R1'):
     alpha = M.alpha
-    rule = 'C02.R1'
     # ---- first line through the cascade
     l0m = rx.strip_lang(rx.lines_of(Tm, 'first', universal), '\r\n')
     remaining_m = l0m
@@ -179,7 +178,7 @@ def hazards(rep, M, rule, site, label, stripped, raw, where):
                            ('a paragraph separator (no-whitespace rule)', M.L('_blank_line_no_whitespace'), stripped),
                            ('an initial blank line', M.L('_initial_blank_line'), stripped),
                            ('a PGP armor line', M.L('_gpgre'), stripped),
-                           ('a comment', M.pat(r'#(?s:.*)'), raw)):
+                           ('a comment', M.comment_lang(), raw)):
         w = lines.common_witness(bad)
         what = '%s is not %s' % (label, nm)
         if w is not None:
